@@ -1043,7 +1043,15 @@ func helperStructField(c *Ctx, v ssa.Value) []ssa.Value {
 			}
 			for _, r2 := range *fa.Referrers() {
 				if st, ok := r2.(*ssa.Store); ok && st.Addr == ssa.Value(fa) {
-					out = append(out, st.Val)
+					dup := false
+					for _, o := range out {
+						if o == st.Val {
+							dup = true
+						}
+					}
+					if !dup {
+						out = append(out, st.Val)
+					}
 				}
 			}
 		}
